@@ -712,3 +712,50 @@ def rule_stageguard(ctx, prop: str) -> RuleResult:
                             f"accesses the source buffer out of bounds (halo window x[i-1:i+2] touches x[n])"))
     res.floor = 3
     return res
+
+
+def rule_freevars(ctx, prop: str) -> RuleResult:
+    """`_FV` (class _FreeVars) answers "which variables does this code use from outside?" for the
+    scope guards of fission, lift_scope, remove_loop, divide_dim ...: an allocation may be left
+    behind only if no later statement uses it.  A buffer is used by EVERY expression constructor
+    that carries a `sym name` in the ADT — a point read, a window expression `tmp[0:8]` passed to
+    a call, a `stride(tmp, 0)` — so `_FreeVars.do_e` must record the name for each of them.  With
+    only LoopIR.Read, fission moves `foo(8, tmp[0:8])` out of the scope of `tmp`."""
+    ix, adts = ctx.ix, ctx.adts
+    res = RuleResult("FREEVARS")
+    c = ix.module(S).cls("_FreeVars")
+    f = c.methods.get("do_e") if c else None
+    if f is None:
+        raise AnalysisError("anchor vanished: _FreeVars.do_e")
+    res.analysed.append(f"{S}:_FreeVars.do_e")
+    mod = adts["LoopIR"]
+    named = [k for k in mod.ctors_of("expr") if any(fl.name == "name" and fl.type == "sym" for fl in mod.ctor(k).fields)]
+    if len(named) < 3:
+        raise AnalysisError(f"FREEVARS: expected Read, WindowExpr, StrideExpr to carry `sym name` in the ADT, found {named}")
+    ps = [a for a in f.params() if a != "self"]
+    subj = ps[0] if ps else "e"
+    covered: Set[str] = set()
+    for n in f.body_nodes():
+        if isinstance(n, ast.If):
+            recs = any(isinstance(k, ast.Call) and isinstance(k.func, ast.Attribute) and k.func.attr == "add" and k.args and ast.unparse(k.args[0]) == f"{subj}.name" for s_ in n.body for k in ast.walk(s_))
+            if not recs:
+                continue
+            for k in ast.walk(n.test):
+                if isinstance(k, ast.Call) and dotted(k.func) == "isinstance" and len(k.args) == 2 and ast.unparse(k.args[0]) == subj:
+                    cs = k.args[1].elts if isinstance(k.args[1], ast.Tuple) else [k.args[1]]
+                    for c_ in cs:
+                        r = adts.resolve_ctor(c_, f.module)
+                        if r:
+                            covered |= set(adts.expand(r[0], r[1]))
+    for k in named:
+        res.instances += 1
+        res.nontrivial += 1
+        ok = k in covered
+        res.ob(ok)
+        res.sample(f"_FreeVars.do_e records the buffer named by LoopIR.{k}: {ok}")
+        if not ok:
+            res.add(Finding("FREEVARS", S, f.lineno, "_FreeVars.do_e", f"name-of:{k}",
+                            f"_FreeVars does not record the buffer named by a LoopIR.{k}: a use of an allocation through a {k} (e.g. `foo(8, tmp[0:8])`, `stride(tmp, 0)`) is invisible to the scope guards, "
+                            f"and fission / lift_scope leave the use outside the scope of the declaration (ill-scoped procedure, KeyError at compile time)"))
+    res.floor = 3
+    return res
